@@ -160,10 +160,20 @@ func (mem *CListMempool) FlushAppConn() error {
 	return mem.proxyAppConn.FlushSync()
 }
 
-// XXX: Unsafe! Calling Flush may leave mempool in inconsistent state.
+// Flush removes all transactions from the mempool and the cache.
+//
+// It takes the update lock exclusively, so it cannot interleave with CheckTx,
+// Update or a reap, and the admission lock, so a CheckTx answer that is still
+// on its way from the application is processed entirely before or entirely
+// after the flush.
+//
+// XXX: with an asynchronous ABCI client, re-CheckTx answers that are still
+// outstanding when Flush is called refer to transactions that are gone.
 func (mem *CListMempool) Flush() {
-	mem.updateMtx.RLock()
-	defer mem.updateMtx.RUnlock()
+	mem.updateMtx.Lock()
+	defer mem.updateMtx.Unlock()
+	mem.addTxMtx.Lock()
+	defer mem.addTxMtx.Unlock()
 
 	_ = atomic.SwapInt64(&mem.txsBytes, 0)
 	mem.cache.Reset()
